@@ -18,9 +18,22 @@ fn main() {
                 "thorough" => Tier::Thorough,
                 _ => usage(),
             };
-            checks::run(&args[2], tier)
+            // a panic that escapes the per-case guards is the harness's own (the panic hook is silent): say so, exit 2
+            match std::panic::catch_unwind(|| checks::run(&args[2], tier)) {
+                Ok(c) => c,
+                Err(_) => {
+                    println!("INCONCLUSIVE property={} the harness itself panicked: {}", args[2], bourse_verif::engine::last_panic());
+                    2
+                }
+            }
         }
-        "replay" if args.len() >= 4 => checks::replay(&args[2], &args[3]),
+        "replay" if args.len() >= 4 => match std::panic::catch_unwind(|| checks::replay(&args[2], &args[3])) {
+            Ok(c) => c,
+            Err(_) => {
+                println!("INCONCLUSIVE property={} the harness itself panicked: {}", args[2], bourse_verif::engine::last_panic());
+                2
+            }
+        },
         "fuzz-decode" if args.len() >= 4 => bourse_verif::decode::decode_main(&args[2], &args[3]),
         "oracle-server" => bourse_verif::oracle::server_main(),
         "c09-child" if args.len() >= 3 => checks::c09::child_main(args[2] == "1"),
